@@ -1,7 +1,7 @@
 SPECIFICATION Spec
 CONSTANTS
   Dialect = "code"
-  TokLeaves = {"a", ","}
+  TokLeaves = {"a"}
   DocDepth = 3
   SubDepth = 0
   Wide = FALSE
